@@ -177,4 +177,29 @@ pub proof fn lemma_alignment_accepts_iff_realisable(packed: bool, align: Option<
         }
     }
 }
+// ---------- the defaultable check (C17 "defaultable yields Default": the derive must be possible) ----------
+/// the named type a by-value field consists of (through arrays); pointers and function pointers have none
+pub open spec fn defaultable_path_of(t: Type) -> Option<ItemPath>
+    decreases t
+{
+    match t {
+        Type::Raw(p) => Some(p),
+        Type::Array(inner, _) => defaultable_path_of(*inner),
+        _ => None,
+    }
+}
+/// what an accepted defaultable type guarantees about one field: it is made of a named type that is registered,
+/// and if that type is resolved it is itself defaultable
+pub open spec fn field_defaultable(reg: &TypeRegistry, t: Type) -> bool {
+    match defaultable_path_of(t) {
+        Some(p) => reg.types@.contains_key(p) && (match reg.types@[p].state {
+            ItemState::Resolved(r) => (match r.inner {
+                ItemDefinitionInner::Type(td) => td.defaultable,
+                ItemDefinitionInner::Enum(ed) => ed.defaultable && ed.default_index is Some,
+            }),
+            _ => true,
+        }),
+        None => false,
+    }
+}
 }
